@@ -22,6 +22,9 @@ CHECKS = {
  "C07": dict(technique=DBE + "; complete enumeration of PHOTOS-flag sequences (<=4 flags x 3 positions each), label alphabet and numeric-form sweeps for every statement kind",
              text="Files with 0..3 statements of each of the 14 global statement kinds (colliding names, value forms, positions relative to Decay blocks, repeated lineshape settings) within the deviation bound are parsed and every global query is compared, typed, with the reference later-wins semantics.",
              note="Bound 2 / 3 deviations; default widths only for names with a known reference width.", ref="3/C07"),
+ "C08": dict(technique="explicit-state BFS over histories of public queries on the real DecFileParser (every returned value destructively mutated, re-parse with either switch), each history in a forked pristine process, state hashing on the full query snapshot + hidden tree fingerprint; plus complete enumeration of CopyDecay scenarios against the reference semantics",
+             text="All histories of length <=2 (3 on the smallest files in thorough) over ~40 query/mutation operations on generated files and fixtures are executed; after the last step every answer must equal that of a freshly parsed instance and no two decay tables may share a tree node, child list or token object. The CopyDecay clause is checked on the complete product of its scenario dimensions.",
+             note="History length bound; six input files; the no-sharing invariant reads the private _parsed_decays list.", ref="3/C08"),
  "C14": dict(technique="explicit-state BFS over call histories of the real DescriptorFormat (state hashing on config + hidden per-object state) against a stack reference model; second driver through real with-blocks",
              text="Every history of create/enter/leave/leave-by-exception/set/invalid-set operations up to the stated length (all histories up to the forced depth, state-hashed beyond) is executed on the real class and compared after every step with a stack model of the format in force; bounded exhaustive, no sampling.",
              note="Bounded by history length and at most 3 context objects; two valid and eight invalid pattern pairs.", ref="3/C14"),
